@@ -167,6 +167,27 @@ fn shift_all(planes: &Arc<RwLock<HashMap<u32, Plane>>>, ms: i64) {
     }
 }
 
+/// Virtual clock: real time that passes between two ops must not age the rows (the model's clock
+/// moves with `adv` only).  Every stamp that predates the previous sync point is moved forward by
+/// the real time elapsed since then; stamps set after it keep an offset of at most one interval.
+fn sync_clock(planes: &Arc<RwLock<HashMap<u32, Plane>>>, last_sync: &mut DateTime<Utc>) {
+    let now = Utc::now();
+    let d = now.signed_duration_since(*last_sync);
+    let ls = *last_sync;
+    let mut g = planes.write().unwrap();
+    let fix = |t: &mut DateTime<Utc>| { if *t <= ls { *t += d; } };
+    for p in g.values_mut() {
+        fix(&mut p.timestamp);
+        fix(&mut p.cpr_time[0]);
+        fix(&mut p.cpr_time[1]);
+        if let Some(t) = p.position_timestamp.as_mut() { fix(t); }
+        if let Some(t) = p.track_timestamp.as_mut() { fix(t); }
+        if let Some(t) = p.heading_timestamp.as_mut() { fix(t); }
+        if let Some(t) = p.bds_5_0_timestamp.as_mut() { fix(t); }
+    }
+    *last_sync = now;
+}
+
 fn main() {
     let argv: Vec<String> = std::env::args().collect();
     if argv.len() != 3 {
@@ -197,6 +218,7 @@ fn main() {
     };
     let mut seg: Option<Vec<u8>> = None;
     let mut seg_no = 0u64;
+    let mut last_sync = Utc::now();
     let tmpdir = std::env::temp_dir();
     let dummy_df = DF::from_message(&[12u32, 0, 0, 0, 0, 0, 0, 0, 0, 0, 0, 0, 0, 0, 0, 0, 0, 0, 0, 0, 0, 0, 0, 0, 0, 0, 0, 0]).expect("dummy DF");
 
@@ -245,6 +267,7 @@ fn main() {
                 "end" => {
                     if let Some(buf) = seg.take() {
                         seg_no += 1;
+                        sync_clock(&table, &mut last_sync);
                         let path = tmpdir.join(format!("sqh-{}-{}.txt", std::process::id(), seg_no));
                         std::fs::write(&path, &buf).expect("write segment");
                         let args = Arc::new(make_args(&cfg, path.to_str().unwrap()));
@@ -266,9 +289,13 @@ fn main() {
                         }
                     }
                 }
-                "adv" => { shift_all(&table, toks[1].parse().unwrap_or(0)); }
+                "adv" => {
+                    sync_clock(&table, &mut last_sync);
+                    shift_all(&table, toks[1].parse().unwrap_or(0));
+                }
                 "dump" => {
-                    let now = Utc::now();
+                    sync_clock(&table, &mut last_sync);
+                    let now = last_sync;
                     let g = table.read().unwrap();
                     let mut keys: Vec<&u32> = g.keys().collect();
                     keys.sort();
@@ -300,6 +327,7 @@ fn main() {
                     _ => { writeln!(o, "skip").unwrap(); }
                 },
                 "render" => {
+                    sync_clock(&table, &mut last_sync);
                     let flags = DisplayFlags::from_arg_str(&cfg.groups);
                     let h = LegendHeaders::from_display_flags(&flags);
                     let args = make_args(&cfg, "");
